@@ -3,13 +3,13 @@
    back for a printed expression ([unfold]: the parser has no negative literals, no IntFormat,
    and INF/NAN/true/false are names), and when two expressions denote the same script ([fold]:
    literal signs folded, builtin constants replaced by their values, formatting hints erased). *)
-From TV Require Import Base.I32 Model.Fmt Model.FmtLex Model.FmtParse.
+From TV Require Import Base.I32 Gen.FmtTables Model.Fmt Model.FmtLex Model.FmtParse.
 Open Scope Z_scope.
 
 Definition binops : list string :=
   ["+"; "-"; "*"; "/"; "%"; "=="; "!="; "<"; "<="; ">"; ">="; "|"; "^"; "&"; "||"; "&&"; "<<"; ">>"; ">>>"]%string.
 Definition fn_unops : list string :=
-  ["sin"; "cos"; "tan"; "asin"; "acos"; "atan"; "sqrt"; "$"; "%"; "int"; "float"]%string.
+  ["$"; "%"; "int"; "float"; "sin"; "cos"; "tan"; "asin"; "acos"; "atan"; "sqrt"]%string.
 
 Fixpoint all_chars (p : ascii -> bool) (s : string) : bool :=
   match s with EmptyString => true | String c r => p c && all_chars p r end.
@@ -47,7 +47,7 @@ Fixpoint pr_expr (e : fexpr) : bool :=
   | FTern c l r => pr_expr c && pr_expr l && pr_expr r
   | FBin a op b => mem_str op binops && pr_expr a && pr_expr b
   | FUn op x =>
-      if mem_str op prefix_unops then pr_expr x && follows_ok op (print_expr fd false x)
+      if mem_str op prefix_unops then pr_expr x && (gen_unop_guard || follows_ok op (print_expr fd false x))
       else mem_str op fn_unops && pr_expr x
   | FXcr _ _ v => pr_var v
   | FVar v => pr_var v
